@@ -508,16 +508,16 @@ Fixpoint refreshes (z : zone) (tables : list (list (option Z * list wmsg)))
       end
   end.
 
-(* dns.query.inbound_xfr(where, txn_manager, query=None, udp_mode=...): the query is made from the
-   zone; an IXFR is first tried over UDP unless udp_mode is NEVER (0); UseTCP falls back to TCP
-   for TRY_FIRST (1) and propagates for ONLY (2); any other outcome of the UDP attempt is final *)
-Definition xfr_top (z : zone) (mode : Z) (tbu tbt : list (option Z * list wmsg)) : res (Z * zone) :=
-  do q <- make_query (zone_serial z) (Some 0);
-  let '(qt, s) := q in
+(* dns.query.inbound_xfr(where, txn_manager, query, udp_mode=...) once the query's rdtype qt, its
+   serial s and whether it carries a TSIG keyring (kr) are known: an IXFR is first tried over UDP
+   unless udp_mode is NEVER (0); UseTCP falls back to TCP for TRY_FIRST (1) and propagates for
+   ONLY (2); any other outcome of the UDP attempt is final.  Inbound gets require_tsig = bool(keyring). *)
+Definition xfr_core (kr : bool) (z : zone) (qt : Z) (s : option Z) (mode : Z)
+           (tbu tbt : list (option Z * list wmsg)) : res (Z * zone) :=
   let tcp (_ : unit) : res (Z * zone) :=
-    let '(r, _) := inbound_xfr z qt s false (pick tbt s) in Ok (result_code r, result_zone r) in
+    let '(r, _) := xfr_run kr z qt s false (pick tbt s) in Ok (result_code r, result_zone r) in
   if (qt =? tIXFR) && negb (mode =? 0) then
-    let '(r, _) := inbound_xfr z qt s true (pick tbu s) in
+    let '(r, _) := xfr_run kr z qt s true (pick tbu s) in
     match r with
     | Done z' => Ok (0, z')
     | Error e z' =>
@@ -525,6 +525,21 @@ Definition xfr_top (z : zone) (mode : Z) (tbu tbt : list (option Z * list wmsg))
         else Ok (e, z')
     end
   else tcp Datatypes.tt.
+
+(* query=None: "query, serial = dns.xfr.make_query(txn_manager)" (no keyring) *)
+Definition xfr_top (z : zone) (mode : Z) (tbu tbt : list (option Z * list wmsg)) : res (Z * zone) :=
+  do q <- make_query (zone_serial z) (Some 0);
+  let '(qt, s) := q in
+  xfr_core false z qt s mode tbu tbt.
+
+(* a query made by the caller with dns.xfr.make_query(zone, serial=qser, keyring=...): the keyring only
+   makes the query signed (q.use_tsig); then "serial = dns.xfr.extract_serial_from_query(query)" *)
+Definition xfr_top_query (z : zone) (qser : option Z) (kr : bool) (mode : Z)
+           (tbu tbt : list (option Z * list wmsg)) : res (Z * zone) :=
+  do q <- make_query (zone_serial z) qser;
+  let '(qt, s) := q in
+  do s2 <- extract_serial (qt, s);
+  xfr_core kr z qt s2 mode tbu tbt.
 
 (* ---- obs interface ---- *)
 Fixpoint zs_of_obs (l : list obs) : option (list Z) :=
@@ -779,6 +794,18 @@ Definition run (c : obs) : obs :=
           | Internal e => E e
           end
       | _, _, _ => E eBadCase
+      end
+  (* 12: dns.query.inbound_xfr with a query made by dns.xfr.make_query(zone, serial, keyring).
+         [12; zone kind; relativize; udp_mode; zone; udp table; tcp table; serial argument; keyring 0/1; ...] *)
+  | L (I 12 :: I _ :: I _ :: I mode :: L z :: L otu :: L ott :: qser :: I kr :: _) =>
+      match zone_of_obs z, table_of_obs otu, table_of_obs ott, oz_of_obs qser with
+      | Some z, Some tbu, Some tbt, Some qser =>
+          match xfr_top_query z qser (kr =? 1) mode tbu tbt with
+          | Ok (c, z') => L [I c; obs_of_zone z']
+          | Lib e => L [I e; obs_of_zone z]          (* make_query / extract_serial raised: nothing was started *)
+          | Internal e => L [I e; obs_of_zone z]
+          end
+      | _, _, _, _ => E eBadCase
       end
   | _ => E eBadCase
   end.
